@@ -48,3 +48,20 @@ Definition xev_of (z : Z) : xev :=
   if z =? 0 then XConnFailed else if z =? 1 then XCompleted else if z =? 2 then XLostClean
   else if z =? 3 then XLostError else if z =? 4 then XTimeout else XStop.
 Definition d_exit_status (a : sexp) : sexp := I (exit_status (map xev_of (as_Zs a))).
+
+(** Entry point "api_run": [ncalls; ops as (async?, result) list; events] -> delivered *)
+From VD Require Import Model.Api.
+Definition aev_of (z : Z) : aev :=
+  if z =? 0 then AppIssue else if z =? 1 then AppTake else if z =? 2 then ReactorThunk
+  else if z =? 3 then ConnUp else if z =? 4 then ConnFail else OpComplete.
+Definition d_api_run (a : sexp) : sexp :=
+  match as_list a with
+  | [I n; ops; evs] =>
+      let table := map (fun o => match as_list o with
+                                 | [I k; I r] => if k =? 0 then Sync r else Async r
+                                 | _ => Sync 0
+                                 end) (as_list ops) in
+      let s := arun (fun i => nth i table (Sync 0)) (Z.to_nat n) (map aev_of (as_Zs evs)) in
+      L [L (map (fun p => L [I (Z.of_nat (fst p)); I (snd p)]) (a_delivered s)); I (Z.of_nat (a_next s))]
+  | _ => sErr
+  end.
